@@ -171,6 +171,49 @@ def _macro_build_run(m, gen_path, target, toolchain=None, miri=False, asan=False
     return "ok", out
 
 
+def macro_part_c07(m, tier, seed):
+    """C07 names tree! among the ways to create nodes: generated literals run against arenas with free slots, and the
+    allocation facts the macrogen monitor records (signatures macro/alloc/...) are judged here; its other findings are C15's."""
+    def part(cov):
+        import json, re
+        import macrogen
+        scale = float(os.environ.get("VERIF_SCALE", "1"))
+        srcdir = os.path.join(m.BUILD, "macrogen-src")
+        os.makedirs(srcdir, exist_ok=True)
+        src, index, nsys = macrogen.generate(seed * 100 + 7, int((2500 if tier == "thorough" else 400) * scale), 5 if tier == "thorough" else 4)
+        path = os.path.join(srcdir, "c07.rs")
+        with open(path, "w") as f:
+            f.write(src)
+        kind, out = _macro_build_run(m, path, target="macrogen-0")
+        summary = None
+        for l in out.splitlines():
+            if l.startswith("{\"literals\""):
+                summary = json.loads(l)
+        own = [l for l in out.splitlines() if l.startswith("FINDING ") and "sig=macro/alloc/" in l]
+        foreign = [l for l in out.splitlines() if l.startswith("FINDING ") and "sig=macro/alloc/" not in l]
+        cov["tree_macro_allocations"] = {"literals": (summary or {}).get("literals", 0), "nodes_created": (summary or {}).get("nodes", 0),
+                                         "roots_in_recycled_slot": (summary or {}).get("roots_in_recycled_slot", 0),
+                                         "findings_of_other_properties": len(foreign), "run": kind}
+        if own:
+            os.makedirs(m.REPLAYS, exist_ok=True)
+            rp = os.path.join(m.REPLAYS, "C07-macro-alloc.txt")
+            with open(rp, "w") as f:
+                f.write("property=C07\nsignature=macro/alloc\nseed=%d\n" % seed)
+                for l in own[:10]:
+                    f.write(l + "\n")
+                    mm = re.match(r"FINDING literal=(\d+)", l)
+                    if mm:
+                        i = int(mm.group(1))
+                        f.write("  literal %d: tree!(arena, %s)\n" % (i, index[i][1]))
+                f.write("\ngenerated program: %s (regenerate with the same seed)\n" % path)
+            m.say("  [tree!] creating nodes through the macro: %s" % own[0][:300])
+            return ["VIOLATION property=C07 replay=%s" % rp]
+        if kind in ("build-error",) or (summary is None and kind != "compile-error" and not foreign):
+            cov["tree_macro_allocations"]["note"] = "the generated program did not run: no observation from this part"
+        return []
+    return part
+
+
 def check_c15(m, tier, seed):
     import time, json, concurrent.futures, re
     import macrogen
@@ -558,6 +601,11 @@ def register(m):  # noqa: F811
         extra_parts=[lambda cov: _asan_run(m, "C08", tier, seed, cov), lambda cov: _miri_run(m, "C08", tier, seed, cov)],
         extra_assumptions=["ASan/LeakSanitizer and Miri are second, independent oracles for leaked / doubly freed payloads on their own workloads; "
                            "the drop table of the monitor stores integers only, so it cannot hide a block from them"])
+    m.CHECKS["C07"] = lambda tier, seed: m.check_monitored(
+        "C07", tier, seed,
+        extra_parts=[m.deep_part("C07", tier, seed), macro_part_c07(m, tier, seed)],
+        extra_assumptions=["the tree! part judges only the allocation facts (count() growth against free slots, one more live node per "
+                           "written expression, existing nodes unchanged); the shape a literal builds is C15's question"])
     m.CHECKS["C11"] = lambda tier, seed: m.check_monitored(
         "C11", tier, seed, rule="readonly",
         extra_parts=[lambda cov: _miri_run(m, "C11", tier, seed, cov, many_seeds=True)],
